@@ -1,4 +1,5 @@
 import PqModel.ConvertChunksProofs
+import PqModel.ConvertChunksFixed
 import PqModel.Props.C12
 
 /-! # C12, second part — the column-chunk view of a converted row group, the sorting columns it
@@ -13,12 +14,13 @@ open PqModel.Dremel PqModel.Convert
 
 /-! ## (1) column chunks -/
 
-/-- For targets that only delete and permute fields (`permN`: no repetition type changes, no added
-    fields) the streams served by the column chunks of the converted row group are exactly the
-    streams of the rows read through `convertedRows` (and both are the shredded projections),
-    for every non-empty row group of conforming rows. -/
-theorem chunk_view_eq_row_view_partial (src tgt : PNode) (n : Nat) (v0 : Val) (vs : List Val)
-    (hp : permN src tgt = true) (hwf : wfN (eraseN src) = true)
+/-- Since repair 2c2062a: for targets that delete and permute fields at any depth and turn
+    required fields into optional ones (`subN`, everything `convert_shred` covers) the streams
+    served by the column chunks of the converted row group are exactly the streams of the rows
+    read through `convertedRows` (and both are the shredded projections), for every non-empty row
+    group of conforming rows. Before the repair this held for `permN` only (no widening). -/
+theorem chunk_view_eq_row_view (src tgt : PNode) (n : Nat) (v0 : Val) (vs : List Val)
+    (hp : subN src tgt = true) (hwf : wfN (eraseN src) = true)
     (hconf : ∀ v ∈ v0 :: vs, confN (eraseN src) v = true) :
     chunkView src tgt (joinRows (leavesP src) ((v0 :: vs).map (shred src))) n = rowView src tgt (v0 :: vs) ∧
       rowView src tgt (v0 :: vs) = joinRows (leavesP tgt) ((v0 :: vs).map fun v => shred tgt (projN src tgt v)) := by
@@ -28,8 +30,26 @@ theorem chunk_view_eq_row_view_partial (src tgt : PNode) (n : Nat) (v0 : Val) (v
     congr 1
     apply List.map_congr_left
     intro v hv
-    exact PqModel.Props.C12.convert_shred src tgt v (perm_subN tgt src hp) hwf (hconf v hv)
-  exact ⟨(chunkView_rows src tgt n v0 vs hp hwf hconf).trans hrow.symm, hrow⟩
+    exact PqModel.Props.C12.convert_shred src tgt v hp hwf (hconf v hv)
+  exact ⟨(chunkView_rows_sub src tgt n v0 vs hp hwf hconf).trans hrow.symm, hrow⟩
+
+/-- non-vacuity: drop a column, permute and WIDEN inside a repeated group, two rows -/
+example :
+    let src : PNode := .group (.cons 1 .opt .leaf (.cons 2 .rpt (.group (.cons 5 .req .leaf (.cons 6 .opt .leaf .nil))) (.cons 3 .req .leaf .nil)))
+    let tgt : PNode := .group (.cons 2 .rpt (.group (.cons 6 .opt .leaf (.cons 5 .opt .leaf .nil))) (.cons 1 .opt .leaf .nil))
+    let rows : List Val := [.struct [.none, .list [.struct [.prim 1, .none], .struct [.prim 2, .some (.prim 3)]], .prim 9],
+      .struct [.some (.prim 4), .list [], .prim 8]]
+    subN src tgt = true ∧ permN src tgt = false ∧ wfN (eraseN src) = true ∧ (∀ v ∈ rows, confN (eraseN src) v = true) ∧
+      chunkView src tgt (joinRows (leavesP src) (rows.map (shred src))) 2 =
+        [[⟨none, 0, 1⟩, ⟨some 3, 1, 2⟩, ⟨none, 0, 0⟩], [⟨some 1, 0, 2⟩, ⟨some 2, 1, 2⟩, ⟨none, 0, 0⟩], [⟨none, 0, 0⟩, ⟨some 4, 0, 1⟩]] := by
+  decide
+
+/-- The delete/permute case as a corollary (the statement that held before the repair too). -/
+theorem chunk_view_eq_row_view_perm (src tgt : PNode) (n : Nat) (v0 : Val) (vs : List Val)
+    (hp : permN src tgt = true) (hwf : wfN (eraseN src) = true)
+    (hconf : ∀ v ∈ v0 :: vs, confN (eraseN src) v = true) :
+    chunkView src tgt (joinRows (leavesP src) ((v0 :: vs).map (shred src))) n = rowView src tgt (v0 :: vs) :=
+  (chunk_view_eq_row_view src tgt n v0 vs (perm_subN tgt src hp) hwf hconf).1
 
 /-- non-vacuity: drop a column, permute inside a repeated group, two rows -/
 example :
@@ -42,29 +62,49 @@ example :
         [[⟨none, 0, 1⟩, ⟨some 3, 1, 2⟩, ⟨none, 0, 0⟩], [⟨some 1, 0, 1⟩, ⟨some 2, 1, 1⟩, ⟨none, 0, 0⟩], [⟨none, 0, 0⟩, ⟨some 4, 0, 1⟩]] := by
   decide
 
--- OPEN: chunk_view_eq_row_view for every target `convert_shred` covers (required -> optional) and
---   for added columns. False for the code as it stands: the chunk view applies no level tables
---   and synthesises added columns from an adjacent chunk, capped at `numRows` entries
---   (known findings; witnesses below). The exact gap: `permN` vs `subN` (widening) and `addN`.
+-- OPEN: chunk_view_eq_row_view for added columns (`addN`) and for narrowed columns
+--   (optional -> required). Added: false for the code as it stands, the chunk view synthesises
+--   added columns from an adjacent chunk, capped at `numRows` entries (known finding
+--   `added-column-chunk-mirrors-adjacent`; witnesses below). Narrowed: true since repairs
+--   2c2062a + fa179c0 (`chunk_view_narrowed_is_row_view` is the former counterexample, L1/L2 cover
+--   random narrowed targets) but not proved: `main_chunkN_sub`, like `main_convN`, needs `rpOk`.
 
-/-- known finding `widened-column-keeps-source-levels`: required → optional, the chunk keeps
-    definition level 0 (reads as null), the row path says 1 -/
-theorem chunk_view_widened_keeps_source_levels :
+/-- BEFORE repair 2c2062a (regression fact; former finding `widened-column-keeps-source-levels`):
+    required → optional, the chunk kept definition level 0 (reads as null), the row path says 1 -/
+theorem chunk_view_widened_keeps_source_levels_before_fix :
     let src : PNode := .group (.cons 1 .req .leaf .nil)
     let tgt : PNode := .group (.cons 1 .opt .leaf .nil)
     let rows : List Val := [.struct [.prim 1], .struct [.prim 2]]
     subN src tgt = true ∧
-      chunkView src tgt (joinRows 1 (rows.map (shred src))) 2 = [[⟨some 1, 0, 0⟩, ⟨some 2, 0, 0⟩]] ∧
+      chunkView_before_fix src tgt (joinRows 1 (rows.map (shred src))) 2 = [[⟨some 1, 0, 0⟩, ⟨some 2, 0, 0⟩]] ∧
       rowView src tgt rows = [[⟨some 1, 0, 1⟩, ⟨some 2, 0, 1⟩]] := by decide
 
-/-- known finding `narrowed-column-keeps-source-levels`: optional → required, the chunk keeps
-    level 1 (above the column's maximum 0) and the null -/
-theorem chunk_view_narrowed_keeps_source_levels :
+/-- after repair 2c2062a the chunk of the widened column is the row view -/
+theorem chunk_view_widened_is_row_view :
+    let src : PNode := .group (.cons 1 .req .leaf .nil)
+    let tgt : PNode := .group (.cons 1 .opt .leaf .nil)
+    let rows : List Val := [.struct [.prim 1], .struct [.prim 2]]
+    chunkView src tgt (joinRows 1 (rows.map (shred src))) 2 = rowView src tgt rows ∧
+      rowView src tgt rows = [[⟨some 1, 0, 1⟩, ⟨some 2, 0, 1⟩]] := by decide
+
+/-- BEFORE repair 2c2062a (regression fact; former finding `narrowed-column-keeps-source-levels`):
+    optional → required, the chunk kept level 1 (above the column's maximum 0) and the null -/
+theorem chunk_view_narrowed_keeps_source_levels_before_fix :
     let src : PNode := .group (.cons 1 .opt .leaf .nil)
     let tgt : PNode := .group (.cons 1 .req .leaf .nil)
     let rows : List Val := [.struct [.some (.prim 1)], .struct [.none]]
-    chunkView src tgt (joinRows 1 (rows.map (shred src))) 2 = [[⟨some 1, 0, 1⟩, ⟨none, 0, 0⟩]] ∧
+    chunkView_before_fix src tgt (joinRows 1 (rows.map (shred src))) 2 = [[⟨some 1, 0, 1⟩, ⟨none, 0, 0⟩]] ∧
       rowView src tgt rows = [[⟨some 1, 0, 0⟩, ⟨some 0, 0, 0⟩]] := by decide
+
+/-- after repairs 2c2062a + fa179c0 the chunk of the narrowed column is the row view, also below
+    an optional ancestor (the null becomes the typed zero at the column's maximal level) -/
+theorem chunk_view_narrowed_is_row_view :
+    let src : PNode := .group (.cons 1 .opt .leaf (.cons 2 .opt (.group (.cons 3 .opt .leaf .nil)) .nil))
+    let tgt : PNode := .group (.cons 2 .opt (.group (.cons 3 .req .leaf .nil)) (.cons 1 .req .leaf .nil))
+    let rows : List Val := [.struct [.some (.prim 1), .some (.struct [.none])], .struct [.none, .none],
+      .struct [.none, .some (.struct [.some (.prim 7)])]]
+    chunkView src tgt (joinRows 2 (rows.map (shred src))) 3 = rowView src tgt rows ∧
+      rowView src tgt rows = [[⟨some 0, 0, 1⟩, ⟨none, 0, 0⟩, ⟨some 7, 0, 1⟩], [⟨some 1, 0, 0⟩, ⟨some 0, 0, 0⟩, ⟨some 0, 0, 0⟩]] := by decide
 
 /-- known finding `added-column-chunk-mirrors-adjacent:*-under-repeated`: an optional leaf added
     inside a repeated group (closest sibling required, so the ROW path is right by
